@@ -8,7 +8,7 @@ import (
 )
 
 // didQueryRules: the read operation answers only for active entries and returns the stored entry unmodified.
-func didQueryRules(p *Prog, r *Report, m *didModel, clause string, wantLife, wantSeq bool) {
+func didQueryRules(p *Prog, r *Report, m *didModel, clause string, wantLife, wantSeq, wantKey bool) {
 	kp := func(rule, rest string) string { return rule + ":" + clause + ":" + rest }
 	hs := p.ServerHandlers("QueryServer")["x/did"]
 	r.Floor("did-query-handlers", len(hs), 1)
@@ -28,6 +28,26 @@ func didQueryRules(p *Prog, r *Report, m *didModel, clause string, wantLife, wan
 		if get == nil {
 			r.Undecided(kp("VIEW", hn), "the DID query reads through the getter", p.FnPos(fn), "no getter call")
 			continue
+		}
+		if wantKey {
+			// the identifier looked up is the requested one: string(base64-decode(req.DidBase64)), nothing else applied to it
+			var did *Term
+			if get.Op == "call" && len(get.Args) >= 3 {
+				did = get.Args[2]
+			}
+			ok := did != nil && did.Contains(func(x *Term) bool { return x.Op == "field" && x.Name == "DidBase64" || strings.HasSuffix(x.String(), "req.DidBase64") })
+			if ok {
+				did.Walk(func(x *Term) {
+					if x.Op == "call" && !strings.HasSuffix(x.Name, "encoding/base64.Encoding).DecodeString") {
+						ok = false
+					}
+					if x.Op == "phi" || x.Op == "binop" || x.Op == "slice" || strings.HasPrefix(x.Op, "unknown") {
+						ok = false
+					}
+				})
+			}
+			r.Check(ok, kp("ORIGIN", hn+"#looks-up-the-requested-did"), "the read operation looks up exactly the identifier the client asked for (the base64-decoded request field, untransformed)", p.FnPos(fn),
+				fmt.Sprintf("GetDIDDocument(ctx, %v)", did), fmt.Sprintf("the identifier looked up is %v: a transformation between the request and the store key can resolve one DID to the document of another", did))
 		}
 		for i, ret := range successReturns(fn) {
 			site := p.Pos(ret.Pos())
